@@ -19,6 +19,7 @@ import (
 type c13 struct {
 	multi bool
 	deep  bool
+	prev  map[string]bool
 }
 
 func (o *c13) Before(x *hctx, s hist.Step) {}
@@ -36,6 +37,25 @@ func (o *c13) After(x *hctx, s hist.Step, res hist.Res, mres hist.MRes) string {
 	walked := map[string]observe.Entry{}
 	for _, en := range snap.Entries {
 		walked[en.Path] = en
+	}
+	// a successful remove takes exactly the named entry (and what is below it) out of the tree
+	if res.Err == nil && (s.Op == "remove" || s.Op == "removeall") && o.prev != nil {
+		gone := hist_clean(s.Path)
+		if _, still := walked[gone]; still {
+			return fmt.Sprintf("%s(%q) succeeded but the entry is still listed", s.Op, s.Path)
+		}
+		for p := range o.prev {
+			if p == gone || strings.HasPrefix(p, gone+"/") {
+				continue
+			}
+			if _, ok := walked[p]; !ok {
+				return fmt.Sprintf("%s(%q) also made %s disappear from the tree", s.Op, s.Path, p)
+			}
+		}
+	}
+	o.prev = map[string]bool{}
+	for p := range walked {
+		o.prev[p] = true
 	}
 	// live entries according to the index (through the public persister API)
 	hdrs, err := x.r.W.Headers()
